@@ -24,6 +24,8 @@ type Case struct {
 
 var exprAlphabet = []string{"(", ")", "[", "]", ".", "..", "@", ",", "::", "/", "//", "|", "+", "-", "=", "!=", "<", ">=", "*", "1", "'s'",
 	"a", "p:b", "p:*", "u:b", "div", "and", "or", "mod", "text", "node", "child", "self", "current", "deref", "count", "true", "not", "concat", "nosuch", "$v", ":",
+	// characters that many tables of "white space" hold and XPath's does not (S is space, tab, CR, LF): stray characters
+	"\f", "\v", "\u00a0", "\u0085",
 	// operator names are case sensitive: these are ordinary names
 	"AND", "Or", "DIV", "Mod",
 	// XPath literals have no escapes: a backslash is an ordinary character, also right before the closing quote
@@ -33,7 +35,7 @@ var exprAlphabet = []string{"(", ")", "[", "]", ".", "..", "@", ",", "::", "/", 
 	// a quote that opens a literal which never ends (as the last token: nothing at all follows it)
 	"'", "\""}
 
-var lrAlphabet = []string{"/", "..", "[", "]", "=", "(", ")", "current", "a", "p:b", "xmlfoo", "u:b", ".", "*", "'s'", "1", "p:*", ":"}
+var lrAlphabet = []string{"/", "..", "[", "]", "=", "(", ")", "current", "a", "p:b", "xmlfoo", "u:b", ".", "*", "'s'", "1", "p:*", ":", "\f", "\v"}
 
 func wordy(s string) bool {
 	c := s[len(s)-1]
